@@ -161,10 +161,14 @@ func c18kConnect(s *Server, version string, n *c18kCounts) (*ClientSession, erro
 		ResourceListChangedHandler: func(context.Context, *ResourceListChangedRequest) { n.resources++ },
 		ResourceUpdatedHandler:     func(context.Context, *ResourceUpdatedNotificationRequest) { n.updated++ },
 	})
-	if c18kTransport == "http" {
+	if c18kTransport == "http" || c18kTransport == "http-logged" {
 		h := NewStreamableHTTPHandler(func(*http.Request) *Server { return s }, &StreamableHTTPOptions{Stateless: version == "2026-07-28", Logger: quietLogger})
 		hx := &hxTransport{Handler: h}
-		return cl.Connect(ctx, &StreamableClientTransport{Endpoint: "http://srv.test/mcp", HTTPClient: hx.client(), MaxRetries: -1}, &ClientSessionOptions{ProtocolVersion: version})
+		var t Transport = &StreamableClientTransport{Endpoint: "http://srv.test/mcp", HTTPClient: hx.client(), MaxRetries: -1}
+		if c18kTransport == "http-logged" {
+			t = &LoggingTransport{Transport: t, Writer: io.Discard} // the SDK's debugging wrapper, on the client
+		}
+		return cl.Connect(ctx, t, &ClientSessionOptions{ProtocolVersion: version})
 	}
 	ct, st := NewInMemoryTransports()
 	if _, err := s.Connect(ctx, st, nil); err != nil {
@@ -548,7 +552,7 @@ func TestVerifC18Kinds(t *testing.T) {
 		}
 		cases.Record(idx, obs, 8, func() string { return desc })
 	}
-	for _, tr := range []string{"inmem", "http"} {
+	for _, tr := range []string{"inmem", "http", "http-logged"} {
 		via := func(f func() (string, string, string)) func() (string, string, string) {
 			return func() (o, sg, m string) {
 				c18kTransport = tr
